@@ -1,7 +1,22 @@
 #!/bin/bash
-# usage: eval_seed.sh <seed dir name under /verif/seeded> <check id>...   — applies the patch to /repo, runs checks (no evidence), reverts
+# usage: eval_seed.sh <seed dir name under /verif/seeded> <check id>...
+# Applies the seeded patch to a scratch worktree of /repo (outside /repo and /verif), runs the checks against it
+# (VERIF_REPO, no evidence written) and removes the worktree and the build outputs again. /repo itself is not touched.
 D=/verif/seeded/$1; shift
-git -C /repo status --short | grep -v '^??' && { echo "/repo dirty"; exit 1; }
-git -C /repo apply $D/patch.diff || exit 1
-for c in "$@"; do /verif/check $c --no-evidence 2>&1 | grep -a -E "^VIOLATION|signature|^C[0-9]+ tier|INCONCL" | head -7; done
-git -C /repo checkout -- .; git -C /repo status --short
+T=$(mktemp -d /tmp/evalseed-XXXXXX)
+git -C /repo worktree add -q --detach $T/r HEAD || exit 1
+git -C $T/r apply $D/patch.diff || { git -C /repo worktree remove --force $T/r; rm -rf $T; exit 1; }
+for c in "$@"; do VERIF_REPO=$T/r /verif/check $c --no-evidence 2>&1 | grep -a -E "^VIOLATION|signature|^C[0-9]+ tier|INCONCL" | head -7; done
+H=$(python3 -c "import hashlib,sys; print(hashlib.sha1(sys.argv[1].encode()).hexdigest()[:8])" $T/r)
+git -C /repo worktree remove --force $T/r; git -C /repo worktree prune; rm -rf $T
+python3 - "$H" <<'PY'
+import os,re,shutil,sys
+h=sys.argv[1]
+b='/verif/.build'
+for f in os.listdir(b):
+    if f.endswith('.'+h+'.test') or f in ('mod-'+h,'replays-'+h):
+        p=os.path.join(b,f)
+        shutil.rmtree(p) if os.path.isdir(p) else os.remove(p)
+w='/verif/.work-'+h
+if os.path.isdir(w): shutil.rmtree(w)
+PY
